@@ -1,8 +1,7 @@
 /-
-C03 helper lemmas, part 8: STORE refines the reference `refStore` — under the two named hypotheses
-`NoForward` (the flag list names none of the "forwarded" aliases, which gluon expands) and, for -FLAGS and
-for FLAGS with nothing but `\Deleted`, `Spelling` (a flag is always written the same way: the DELETE
-statements compare the spelling).
+C03 helper lemmas, part 8: STORE refines the reference `refStore` — under the named hypothesis `NoForward`
+(the flag list names none of the "forwarded" aliases, which gluon expands).  Since gluon 45f4598 the DELETE of
+-FLAGS and of FLAGS-with-nothing-but-`\Deleted` ignores letter case, so no hypothesis about spellings is left.
 -/
 import GluonModel.Lemmas.ActStore
 
@@ -11,15 +10,6 @@ open Gluon.DB Gluon.Act
 
 /-- **Named hypothesis**: the flag list names neither `$Forwarded` nor `Forwarded` (any spelling) -/
 def NoForward (flags : List String) : Prop := (FSet.new flags).hasAny forwardKeys = false
-
-/-- **Named hypothesis**: within `U`, a flag name is always spelled the same way -/
-def Spelling (U : List String) : Prop := ∀ g ∈ U, ∀ g' ∈ U, lower g = lower g' → g = g'
-
-/-- every stored flag value is one of `U` -/
-def FlagsWithin (U : List String) (db : DB) : Prop := ∀ p ∈ db.msgFlags, p.2 ∈ U
-
-/-- the flags of a command that can reach the flag rows (everything but `\Deleted`, which is kept per mailbox) are in `U` -/
-def FlagsIn (U : List String) (flags : List String) : Prop := ∀ f ∈ flags, lower f ≠ keyDeleted → f ∈ U
 
 /-- FOREIGN KEY of message_flags_v2: every flag row belongs to a message row -/
 def FkOk (db : DB) : Prop := ∀ p ∈ db.msgFlags, ∃ r ∈ db.messages, r.id = p.1
@@ -97,8 +87,7 @@ include hE in
 theorem applyFlagsAdded_ref (s s' : State) (hInv : Inv s) (sel : MboxRow) (hsel : sel ∈ s.db.mailboxes) (ids : List MessageId)
     (flags : List String) (hnf : NoForward flags) (ups : List Upd)
     (h : applyFlagsAdded E sel.id ids (FSet.new flags) s = .ok (ups, s')) :
-    Inv s' ∧ abs s' = MailboxRef.refStore (abs s) sel.name ids .add flags ∧
-      (∀ U, FlagsWithin U s.db → FlagsIn U flags → FlagsWithin U s'.db) ∧ (FkOk s.db → FkOk s'.db) ∧
+    Inv s' ∧ abs s' = MailboxRef.refStore (abs s) sel.name ids .add flags ∧ (FkOk s.db → FkOk s'.db) ∧
       s'.db.messages = s.db.messages ∧ s'.nextRid = s.nextRid := by
   unfold applyFlagsAdded at h
   rw [bindA_ok] at h
@@ -189,14 +178,7 @@ theorem applyFlagsAdded_ref (s s' : State) (hInv : Inv s) (sel : MboxRow) (hsel 
     · have hd' : (flags.any fun f => MailboxRef.lower f == MailboxRef.deletedKey) = false := by simpa using hd
       have : (flags.any fun f => lower f == MailboxRef.deletedKey) = false := hd'
       simp [this, hd']
-  · refine ⟨?_, ?_, by rw [l2.2.2.1, hfl1.2], by rw [l1.2.2.1, e1.1.2.2.1]⟩
-    · intro U hU hfU p hp
-      rw [l3] at hp
-      rcases hp with hp | ⟨hp, _⟩
-      · rw [hfl1.1] at hp; exact hU p hp
-      · obtain ⟨h1, h2⟩ := (FSet.mem_remove _ _ _).mp hp
-        rw [lower_flagDeleted] at h2
-        exact hfU _ (FSet.new_sub _ _ h1) h2
+  · refine ⟨?_, by rw [l2.2.2.1, hfl1.2], by rw [l1.2.2.1, e1.1.2.2.1]⟩
     · intro hfk p hp
       rw [l2.2.2.1, hfl1.2]
       rw [l3] at hp
@@ -207,19 +189,12 @@ theorem applyFlagsAdded_ref (s s' : State) (hInv : Inv s) (sel : MboxRow) (hsel 
 theorem hasDeleted_eq (flags : List String) : (FSet.new flags).has keyDeleted = MailboxRef.hasDeleted flags := by
   rw [FSet.has_new]; rfl
 
-theorem remaining_sub (flags : List String) (U : List String) (hfU : FlagsIn U flags) (f : String)
-    (h : f ∈ (FSet.new flags).remove flagDeleted) : f ∈ U := by
-  obtain ⟨h1, h2⟩ := (FSet.mem_remove _ _ _).mp h
-  rw [lower_flagDeleted] at h2
-  exact hfU _ (FSet.new_sub _ _ h1) h2
-
 include hE in
-/-- `-FLAGS`: model state after `applyMessageFlagsRemoved` = `refStore … .remove`, when flags are spelled consistently -/
+/-- `-FLAGS`: model state after `applyMessageFlagsRemoved` = `refStore … .remove`, whatever the spellings -/
 theorem applyFlagsRemoved_ref (s s' : State) (hInv : Inv s) (sel : MboxRow) (hsel : sel ∈ s.db.mailboxes) (ids : List MessageId)
-    (flags : List String) (hnf : NoForward flags) (U : List String) (hU : Spelling U) (hdbU : FlagsWithin U s.db)
-    (hfU : FlagsIn U flags) (ups : List Upd)
+    (flags : List String) (hnf : NoForward flags) (ups : List Upd)
     (h : applyFlagsRemoved E sel.id ids (FSet.new flags) s = .ok (ups, s')) :
-    Inv s' ∧ abs s' = MailboxRef.refStore (abs s) sel.name ids .remove flags ∧ FlagsWithin U s'.db ∧ (FkOk s.db → FkOk s'.db) ∧
+    Inv s' ∧ abs s' = MailboxRef.refStore (abs s) sel.name ids .remove flags ∧ (FkOk s.db → FkOk s'.db) ∧
       s'.db.messages = s.db.messages ∧ s'.nextRid = s.nextRid := by
   unfold applyFlagsRemoved at h
   rw [bindA_ok] at h
@@ -252,15 +227,26 @@ theorem applyFlagsRemoved_ref (s s' : State) (hInv : Inv s) (sel : MboxRow) (hse
       else MailboxRef.canon (flagsOf s1.db.msgFlags r.id) := by
     intro r hr
     have hmem : ∀ g, g ∈ flagsOf s'.db.msgFlags r.id ↔ g ∈ flagsOf s1.db.msgFlags r.id ∧
-        ¬(g ∈ (FSet.new flags).remove flagDeleted ∧ r.id ∈ ids ∧ FSet.has (flagsOf s1.db.msgFlags r.id) (lower g) = true) := by
+        ¬(r.id ∈ ids ∧ lower g ∈ ((FSet.new flags).remove flagDeleted).map lower) := by
       intro g
-      rw [mem_flagsOf, l3, mem_flagsOf, mem_withKey s.db ids cur hcur]
+      rw [mem_flagsOf, l3, mem_flagsOf]
       simp only [hfl1.1]
       constructor
       · rintro ⟨h1, h2⟩
-        exact ⟨h1, fun ⟨h3, h4, h5⟩ => h2 ⟨h3, ⟨r, by rw [← hfl1.2]; exact hr, rfl⟩, h4, h5⟩⟩
+        refine ⟨h1, ?_⟩
+        rintro ⟨h3, h4⟩
+        obtain ⟨f, hf, hfg⟩ := List.mem_map.mp h4
+        apply h2
+        refine ⟨f, hf, hfg.symm, ?_⟩
+        rw [mem_withKey s.db ids cur hcur]
+        refine ⟨⟨r, by rw [← hfl1.2]; exact hr, rfl⟩, h3, ?_⟩
+        rw [FSet.has_iff]
+        exact List.mem_map.mpr ⟨g, (mem_flagsOf _ _ _).mpr h1, hfg.symm⟩
       · rintro ⟨h1, h2⟩
-        exact ⟨h1, fun ⟨h3, _, h4, h5⟩ => h2 ⟨h3, h4, h5⟩⟩
+        refine ⟨h1, ?_⟩
+        rintro ⟨f, hf, hfg, hw⟩
+        rw [mem_withKey s.db ids cur hcur] at hw
+        exact h2 ⟨hw.2.1, List.mem_map.mpr ⟨f, hf, hfg.symm⟩⟩
     by_cases hc : r.id ∈ ids
     · simp only [List.contains_iff_mem, hc, if_true, MailboxRef.storeFlags]
       apply canon_eq_of_mem _ _ (sorted_filter _ _ (sorted_canon _))
@@ -271,24 +257,20 @@ theorem applyFlagsRemoved_ref (s s' : State) (hInv : Inv s) (sel : MboxRow) (hse
       constructor
       · rintro ⟨g, hg, rfl⟩
         obtain ⟨h1, h2⟩ := (hmem g).mp hg
-        refine ⟨⟨g, h1, rfl⟩, ?_⟩
-        rintro ⟨f, hf, hfg⟩
-        have hgU : g ∈ U := hdbU (r.id, g) (by rw [← hfl1.1]; exact (mem_flagsOf _ _ _).mp h1)
-        have hfUm : f ∈ U := remaining_sub flags U hfU f hf
-        have : f = g := hU f hfUm g hgU hfg
-        subst this
-        exact h2 ⟨hf, hc, (FSet.has_iff _ _).mpr (List.mem_map.mpr ⟨f, h1, rfl⟩)⟩
+        exact ⟨⟨g, h1, rfl⟩, fun ⟨f, hf, hfg⟩ => h2 ⟨hc, List.mem_map.mpr ⟨f, hf, hfg⟩⟩⟩
       · rintro ⟨⟨g, hg, rfl⟩, h2⟩
-        exact ⟨g, (hmem g).mpr ⟨hg, fun ⟨h3, _, _⟩ => h2 ⟨g, h3, rfl⟩⟩, rfl⟩
+        refine ⟨g, (hmem g).mpr ⟨hg, fun ⟨_, h3⟩ => ?_⟩, rfl⟩
+        obtain ⟨f, hf, hfg⟩ := List.mem_map.mp h3
+        exact h2 ⟨f, hf, hfg⟩
     · simp only [List.contains_iff_mem, hc, if_false]
       apply canon_ext
       intro x
       simp only [List.mem_map]
       constructor
       · rintro ⟨g, hg, rfl⟩; exact ⟨g, ((hmem g).mp hg).1, rfl⟩
-      · rintro ⟨g, hg, rfl⟩; exact ⟨g, (hmem g).mpr ⟨hg, fun ⟨_, h2, _⟩ => hc h2⟩, rfl⟩
+      · rintro ⟨g, hg, rfl⟩; exact ⟨g, (hmem g).mpr ⟨hg, fun ⟨h2, _⟩ => hc h2⟩, rfl⟩
   obtain ⟨hInv', habs'⟩ := abs_flags s1 s' l1.1 l1.2.1 l2 ids _ hfl
-  refine ⟨hInv' hInv1, ?_, ?_⟩
+  refine ⟨hInv' hInv1, ?_, ?_, by rw [l2.2.2.1, hfl1.2], by rw [l1.2.2.1, e1.1.2.2.1]⟩
   · rw [habs', habs1]
     unfold MailboxRef.refStore
     rw [← updMailbox_updMessages]
@@ -303,15 +285,10 @@ theorem applyFlagsRemoved_ref (s s' : State) (hInv : Inv s) (sel : MboxRow) (hse
     · simp [hd]
     · have hd' : MailboxRef.hasDeleted flags = false := by simpa using hd
       simp [hd']
-  · refine ⟨?_, ?_, by rw [l2.2.2.1, hfl1.2], by rw [l1.2.2.1, e1.1.2.2.1]⟩
-    · intro p hp
-      rw [l3] at hp
-      rw [hfl1.1] at hp
-      exact hdbU p hp.1
-    · intro hfk p hp
-      rw [l2.2.2.1, hfl1.2]
-      rw [l3, hfl1.1] at hp
-      exact hfk p hp.1
+  · intro hfk p hp
+    rw [l2.2.2.1, hfl1.2]
+    rw [l3, hfl1.1] at hp
+    exact hfk p hp.1
 
 /-! `FLAGS` -/
 
@@ -328,27 +305,12 @@ theorem foldAdd_keys (cur : List (MessageId × RemoteId × List FlagVal)) : ∀ 
     · rintro ((h | h) | h); exact Or.inl h; exact Or.inr (Or.inl h); exact Or.inr (Or.inr h)
     · rintro (h | h | h); exact Or.inl (Or.inl h); exact Or.inl (Or.inr h); exact Or.inr h
 
-theorem foldAdd_sub (cur : List (MessageId × RemoteId × List FlagVal)) : ∀ (acc : FSet) (f : String),
-    f ∈ cur.foldl (fun acc r => FSet.add acc r.2.2) acc → f ∈ acc ∨ ∃ row ∈ cur, f ∈ row.2.2 := by
-  induction cur with
-  | nil => intro acc f h; exact Or.inl h
-  | cons a r ih =>
-    intro acc f h
-    simp only [List.foldl_cons] at h
-    rcases ih _ _ h with h1 | ⟨row, hrow, h1⟩
-    · rcases FSet.add_sub _ _ _ h1 with h2 | h2
-      · exact Or.inl h2
-      · exact Or.inr ⟨a, List.mem_cons_self, h2⟩
-    · exact Or.inr ⟨row, List.mem_cons_of_mem _ hrow, h1⟩
-
 include hE in
-/-- `FLAGS`: model state after `applyMessageFlagsSet` = `refStore … .set`, when flags are spelled consistently
-    (the spelling only matters when nothing but `\Deleted` is to remain) -/
+/-- `FLAGS`: model state after `applyMessageFlagsSet` = `refStore … .set`, whatever the spellings -/
 theorem applyFlagsSet_ref (s s' : State) (hInv : Inv s) (sel : MboxRow) (hsel : sel ∈ s.db.mailboxes) (ids : List MessageId)
-    (flags : List String) (hnf : NoForward flags) (U : List String) (hU : Spelling U) (hdbU : FlagsWithin U s.db)
-    (hfU : FlagsIn U flags) (ups : List Upd)
+    (flags : List String) (hnf : NoForward flags) (ups : List Upd)
     (h : applyFlagsSet E sel.id ids (FSet.new flags) s = .ok (ups, s')) :
-    Inv s' ∧ abs s' = MailboxRef.refStore (abs s) sel.name ids .set flags ∧ FlagsWithin U s'.db ∧ (FkOk s.db → FkOk s'.db) ∧
+    Inv s' ∧ abs s' = MailboxRef.refStore (abs s) sel.name ids .set flags ∧ (FkOk s.db → FkOk s'.db) ∧
       s'.db.messages = s.db.messages ∧ s'.nextRid = s.nextRid := by
   unfold applyFlagsSet at h
   rw [bindA_ok] at h
@@ -376,8 +338,7 @@ theorem applyFlagsSet_ref (s s' : State) (hInv : Inv s) (sel : MboxRow) (hsel : 
     · have := congrArg (fun P : Proj => (P.msgFlags, P.messages)) (e1.2.1 t hs); simpa [proj, Proj.setTable] using this
   have hkeys := refFlags_keys flags hrec
   have hcurc := getMessagesFlags_char s.db ids cur hcur
-  -- the two branches give the same description of the new flag rows of a named message
-  have hres : SameRest s1 s' ∧ SameButFlags s1.db s'.db ∧ FlagsWithin U s'.db ∧ (FkOk s.db → FkOk s'.db) ∧
+  have hres : SameRest s1 s' ∧ SameButFlags s1.db s'.db ∧ (FkOk s.db → FkOk s'.db) ∧
       ∀ r ∈ s1.db.messages, MailboxRef.canon (flagsOf s'.db.msgFlags r.id) =
         if ids.contains r.id then MailboxRef.storeFlags .set flags (MailboxRef.canon (flagsOf s1.db.msgFlags r.id))
         else MailboxRef.canon (flagsOf s1.db.msgFlags r.id) := by
@@ -386,8 +347,7 @@ theorem applyFlagsSet_ref (s s' : State) (hInv : Inv s) (sel : MboxRow) (hsel : 
     · simp only [hemp, Bool.not_true, Bool.false_eq_true, if_false] at hloop
       obtain ⟨l1, l2, l3⟩ := clearLoop_eff E hE ids _ s1 s' hloop
       have hrem : (FSet.new flags).remove flagDeleted = [] := by simpa using hemp
-      refine ⟨l1, l2, ?_, ?_, ?_⟩
-      · intro p hp; rw [l3, hfl1.1] at hp; exact hdbU p hp.1
+      refine ⟨l1, l2, ?_, ?_⟩
       · intro hfk p hp
         rw [l2.2.2.1, hfl1.2]
         rw [l3, hfl1.1] at hp
@@ -402,20 +362,11 @@ theorem applyFlagsSet_ref (s s' : State) (hInv : Inv s) (sel : MboxRow) (hsel : 
             obtain ⟨hg1, hg2⟩ := hg
             apply hg2
             refine ⟨hc, ?_⟩
-            -- some spelling of g's key is in toClear; it is g's own spelling
+            -- the key of every flag of a named message is a key of toClear
             have hrow : (r.id, r.remoteId, flagsOf s.db.msgFlags r.id) ∈ cur :=
               (hcurc _).mpr ⟨r, by rw [← hfl1.2]; exact hr, hc, rfl⟩
             rw [hfl1.1] at hg1
-            have hk : lower g ∈ (cur.foldl (fun acc r => FSet.add acc r.2.2) ([] : FSet)).map lower :=
-              (foldAdd_keys cur [] _).mpr (Or.inr ⟨_, hrow, List.mem_map.mpr ⟨g, (mem_flagsOf _ _ _).mpr hg1, rfl⟩⟩)
-            obtain ⟨c, hc1, hc2⟩ := List.mem_map.mp hk
-            rcases foldAdd_sub cur [] c hc1 with h1 | ⟨row, hrow', h1⟩
-            · simp at h1
-            · obtain ⟨r', hr', _, rfl⟩ := (hcurc row).mp hrow'
-              have hcU : c ∈ U := hdbU (r'.id, c) ((mem_flagsOf _ _ _).mp h1)
-              have hgU : g ∈ U := hdbU (r.id, g) hg1
-              have : c = g := hU c hcU g hgU hc2
-              rw [← this]; exact hc1
+            exact (foldAdd_keys cur [] _).mpr (Or.inr ⟨_, hrow, List.mem_map.mpr ⟨g, (mem_flagsOf _ _ _).mpr hg1, rfl⟩⟩)
           rw [hnil]
           apply canon_ext
           intro x
@@ -439,12 +390,7 @@ theorem applyFlagsSet_ref (s s' : State) (hInv : Inv s) (sel : MboxRow) (hsel : 
       have hrem : (FSet.new flags).remove flagDeleted ≠ [] := by
         intro e; rw [e] at hemp; exact hemp rfl
       obtain ⟨l2, l3, l4⟩ := setFlags_effect ids _ hrem s1.db db' hloop
-      refine ⟨⟨rfl, rfl, rfl, l2.2.2.2⟩, l2, ?_, ?_, ?_⟩
-      · intro p hp
-        rw [l3] at hp
-        rcases hp with ⟨hp, _⟩ | ⟨_, hp⟩
-        · rw [hfl1.1] at hp; exact hdbU p hp
-        · exact remaining_sub flags U hfU _ hp
+      refine ⟨⟨rfl, rfl, rfl, l2.2.2.2⟩, l2, ?_, ?_⟩
       · intro hfk p hp
         show ∃ r ∈ db'.messages, r.id = p.1
         rw [l2.2.2.1, hfl1.2]
@@ -487,9 +433,9 @@ theorem applyFlagsSet_ref (s s' : State) (hInv : Inv s) (sel : MboxRow) (hsel : 
             · exact ⟨g, h1, rfl⟩
             · exact absurd h1 hc
           · rintro ⟨g, hg, rfl⟩; exact ⟨g, (hmem g).mpr (Or.inl ⟨hg, fun ⟨h2, _⟩ => hc h2⟩), rfl⟩
-  obtain ⟨l1, l2, hW, hF, hfl⟩ := hres
+  obtain ⟨l1, l2, hF, hfl⟩ := hres
   obtain ⟨hInv', habs'⟩ := abs_flags s1 s' l1.1 l1.2.1 l2 ids _ hfl
-  refine ⟨hInv' hInv1, ?_, hW, hF, by rw [l2.2.2.1, hfl1.2], by rw [l1.2.2.1, e1.1.2.2.1]⟩
+  refine ⟨hInv' hInv1, ?_, hF, by rw [l2.2.2.1, hfl1.2], by rw [l1.2.2.1, e1.1.2.2.1]⟩
   rw [habs', habs1]
   unfold MailboxRef.refStore
   rw [← updMailbox_updMessages]
